@@ -255,4 +255,14 @@ SEGMENTS = {
                   (r"self\.k_alloc_and_map_cluster\(", "self.k_alloc_and_map_cluster_rec("),
                   (r"self\.k_do_write_data_file\(", "self.k_do_write_data_file_s(")],
     ),
+    # ---- the flush driver: refcounts before mappings, flag cleared only when nothing is left
+    "FM": dict(
+        file="src/dev/cache.rs", fn="flush_meta", start="FULL",
+        sig="pub(crate) fn seg_fm(&self) -> Qcow2Result<()>",
+        await_calls=["flush_refcount", "flush_meta_generic"],
+        rewrites=[(r"self\.flush_lock\.lock\(\)\.await", "()"),
+                  (r"&\*self\.l1table\.read\(\)\.await", "&self.l1_shim"),
+                  (r"self\.k_flush_meta_generic\(l1, &self\.l2cache, ", "self.k_flush_meta_generic(l1, "),
+                  (r"self\.l2_slice_key_of_l1_off\(", "self.seg_k0_l2(")],
+    ),
 }
